@@ -500,7 +500,9 @@ func callSSA(i *interpreter, caller *frame, callpos token.Pos, fn *ssa.Function,
 		px.depth--
 		px.abort("depth", "call depth %d exceeded in %s", px.maxDepth(), fn)
 	}
-	defer func() { px.depth-- }()
+	prevTop := px.top
+	px.top = fr
+	defer func() { px.depth--; px.top = prevTop }()
 	if px.funcs != nil && meta.report {
 		px.funcs[meta.name] = true
 	}
